@@ -361,7 +361,14 @@ class SSETransport(Transport):
                 self._message_url = f"{self.base_url}{endpoint_path}"
             else:
                 # Handle various formats
-                if "=" in endpoint_path and not endpoint_path.startswith("http"):
+                if endpoint_path.startswith(("http://", "https://")):
+                    # Direct URL
+                    self._message_url = endpoint_path
+                elif "/" in endpoint_path.split("?", 1)[0]:
+                    # Relative path ("messages/?session_id=..."): relative to the
+                    # SSE endpoint <base>/sse
+                    self._message_url = f"{self.base_url}/{endpoint_path}"
+                elif "=" in endpoint_path:
                     # Assume it's query parameters
                     if "/messages/" in self.base_url:
                         self._message_url = f"{self.base_url}?{endpoint_path}"
